@@ -67,11 +67,15 @@ def _build_model(r, defs, shared):
            f"    def tgt({sig_src(r, other1 if shared else defs)}) -> float: ...  #TGT\n"
     src += f"class Ev:\n    def jets(self, kind: str = 'def') -> Iterable[Jet]: ...\n    def a(self) -> float: ...\n" \
            f"    def tgt({sig_src(r, other2 if shared else defs)}) -> float: ...  #TGT\n"
+    src += f"class JetVec(Iterable[Jet]):\n    def size(self) -> int: ...\n    def tgt({sig_src(r, defs)}) -> float: ...  #TGT\n"
+    src += "def _jvec(self) -> JetVec: ...\nEv.jvec = _jvec\n"
     src += f"@func_adl_callable()\ndef fn({sig_src(r, defs, False)}) -> float: ...\n"
+    src += "@func_adl_callable()\ndef pick(js: Iterable[Jet], n: int = 0) -> Jet: ...\n"
     g = {}
     exec(src, g)
     g["__SRC__"] = src
-    return g, {"Trk": defs, "Jet": other1 if shared else defs, "Ev": other2 if shared else defs, "fn": defs}
+    return g, {"Trk": defs, "Jet": other1 if shared else defs, "Ev": other2 if shared else defs, "fn": defs,
+               "JetVec": defs}
 
 
 SITES = {
@@ -88,6 +92,12 @@ SITES = {
     "arg": ("lambda {a}: {a}.jets().Select(lambda {b}: {b}.tgt({ARGS}) + {a}.a())", "Jet"),
     "twice": ("lambda {a}: {a}.tgt({ARGS}) + {a}.jets().Select(lambda {b}: {b}.pt()).First()", "Ev"),
     "after": ("lambda {a}: {a}.jets().Select(lambda {b}: {b}.pt()).First() + {a}.tgt({ARGS})", "Ev"),
+    # a method on the result of a registered function whose own call had to be completed
+    "d1fnchain": ("lambda {a}: pick({a}.jets()).tgt({ARGS})", "Jet"),
+    "d1fnchainkw": ("lambda {a}: pick(n=1, js={a}.jets()).tgt({ARGS})", "Jet"),
+    "d2fnchain": ("lambda {a}: {a}.jets().Select(lambda {b}: pick({a}.jets()).tgt({ARGS}) + {b}.pt())", "Jet"),
+    # a method of a user's own iterable class (also under names the stream class uses itself)
+    "itercoll": ("lambda {a}: {a}.jvec().tgt({ARGS})", "JetVec"),
     "after2": ("lambda {a}: {a}.jets().Select(lambda {b}: {b}.trks().Select(lambda {c}: {c}.q()).First() + {b}.tgt({ARGS}))", "Jet"),
 }
 COLLVAR = "collvar"  # stage 1: Select(lambda e: e.jets()); stage 2: lambda js: js.Select(lambda j: js.First().tgt(ARGS))
@@ -122,13 +132,16 @@ class C07(Check):
                 for shape in call_shapes(n):
                     for site in list(SITES) + ["dict", "collvar"]:
                         for names in (("e", "j", "t"), ("e", "e", "e")):
-                            if names[0] == names[1] and site in ("arg", "d3where"):
+                            if names[0] == names[1] and site in ("arg", "d3where", "d2fnchain"):
                                 continue  # these sites mention the outer parameter inside the inner lambda
                             for shared in (False, True):
                                 out.append((r, defs, shape, site, names, shared))
                             if site in ("d1", "d2sel", "d3") and names[0] != names[1]:
                                 # the method is called like an attribute of the stream class, or has no usable return type
                                 for variant in ("name:value", "name:Where", "ret:none", "ret:Any"):
+                                    out.append((r, defs, shape, site, names, variant))
+                            if site == "itercoll" and names[0] != names[1]:
+                                for variant in ("name:First", "name:Count", "name:Select"):
                                     out.append((r, defs, shape, site, names, variant))
             return out
         return [Space(f"signatures<={N}", {"max_params": N, "sites": list(SITES) + ["dict"], "names": "distinct / re-used",
